@@ -2520,6 +2520,8 @@ EbErrorType decode_multiple_obu(EbDecHandle *dec_handle_ptr, uint8_t **data, siz
             if (status != EB_ErrorNone)
                 return status;
 
+            if (length_size > data_size)
+                return EB_Corrupt_Frame;
             *data += length_size;
             data_size -= length_size;
             length_size = 0;
@@ -2534,6 +2536,8 @@ EbErrorType decode_multiple_obu(EbDecHandle *dec_handle_ptr, uint8_t **data, siz
 
         payload_size = obu_header.payload_size;
 
+        if (obu_header.size + length_size > data_size)
+            return EB_Corrupt_Frame; /* header and size field reach past the data */
         *data += (obu_header.size + length_size);
         data_size -= (obu_header.size + length_size);
 
